@@ -1,68 +1,8 @@
 --------------------------- MODULE AbyLayout ---------------------------
-(* Record layout arithmetic of abyssiniandb 0.1.4, default features (vf_vu64, htx_bitmap). *)
-(* Anchors: piece.rs (PieceMgr::roundup, free_piece_list_offset_of_header,              *)
-(* is_large_piece_size), key.rs:350-393 and val.rs:307-329 (encoded_piece_size),         *)
-(* key.rs:395-422 / val.rs:331-347 (dat_write_piece_one), vfile.rs:744-812 (size/8 and   *)
-(* offset/8 scaling), htx.rs:51-126 (bucket count and .htx length), vu64 0.1.11.         *)
-EXTENDS Integers, Sequences
-
-KeyHdr == 192           \* size of the .key header; first slot starts here
-ValHdr == 192           \* size of the .val header
-HtxHdr == 128           \* size of the .htx header; bucket heads start here
-DefaultBuckets == 16777216
-
-\* the 16 size classes (REC_SIZE_ARY); class 16 (1024) is the shared "large" list
-Classes == <<16, 24, 32, 48, 64, 80, 96, 112, 128, 256, 384, 512, 640, 768, 896, 1024>>
-NClasses == 16
-LargeMin == 1024
-
-\* vu64::encoded_len for values below 2^31 (TLC integers are 32 bit)
-EncLen(v) == IF v < 128 THEN 1
-             ELSE IF v < 16384 THEN 2
-             ELSE IF v < 2097152 THEN 3
-             ELSE IF v < 268435456 THEN 4
-             ELSE 5
-
-\* PieceMgr::roundup: first of the 15 small classes that fits, else next multiple of 128
-\* strictly above x (note (x+128) div 128: a multiple of 128 is still bumped)
-Roundup(x) == IF x <= 16 THEN 16 ELSE IF x <= 24 THEN 24 ELSE IF x <= 32 THEN 32
-              ELSE IF x <= 48 THEN 48 ELSE IF x <= 64 THEN 64 ELSE IF x <= 80 THEN 80
-              ELSE IF x <= 96 THEN 96 ELSE IF x <= 112 THEN 112 ELSE IF x <= 128 THEN 128
-              ELSE IF x <= 256 THEN 256 ELSE IF x <= 384 THEN 384 ELSE IF x <= 512 THEN 512
-              ELSE IF x <= 640 THEN 640 ELSE IF x <= 768 THEN 768 ELSE IF x <= 896 THEN 896
-              ELSE ((x + 128) \div 128) * 128
-
-IsLarge(size) == size >= LargeMin
-
-\* PieceMgr::free_piece_list_offset_of_header: index (1..16) of the free list of a slot size
-ClassIdx(size) == IF size = 16 THEN 1 ELSE IF size = 24 THEN 2 ELSE IF size = 32 THEN 3
-                  ELSE IF size = 48 THEN 4 ELSE IF size = 64 THEN 5 ELSE IF size = 80 THEN 6
-                  ELSE IF size = 96 THEN 7 ELSE IF size = 112 THEN 8 ELSE IF size = 128 THEN 9
-                  ELSE IF size = 256 THEN 10 ELSE IF size = 384 THEN 11 ELSE IF size = 512 THEN 12
-                  ELSE IF size = 640 THEN 13 ELSE IF size = 768 THEN 14 ELSE IF size = 896 THEN 15
-                  ELSE 16
-
-\* a legal slot size: one of the classes, or a multiple of 128 above 1024
-LegalSize(size) == \/ \E i \in 1..NClasses : Classes[i] = size
-                   \/ (size > LargeMin /\ size % 128 = 0)
-
-(* value record: vu64(slot/8) vu64(vlen) value zeros *)
-ValNeed(vlen)  == EncLen(vlen) + vlen                          \* "piece_len"
-ValEnc(vlen)   == EncLen((ValNeed(vlen) + 7) \div 8)            \* "encorded_piece_len"
-ValSlot(vlen)  == Roundup(ValEnc(vlen) + ValNeed(vlen))         \* slot a fresh record gets
-\* bytes really written in front of the padding, for a record living in a slot of `slot` bytes
-ValActual(vlen, slot) == EncLen(slot \div 8) + EncLen(vlen) + vlen
-
-(* key record: vu64(slot/8) vu64(klen) key vu64(voff/8) vu64(next/8) zeros.             *)
-(* The estimate uses the width of the raw offsets, the writer stores offset/8.            *)
-KeyNeed(klen, voff, nxt) == EncLen(klen) + klen + EncLen(voff) + EncLen(nxt)
-KeyEnc(klen, voff, nxt)  == EncLen((KeyNeed(klen, voff, nxt) + 7) \div 8)
-KeySlot(klen, voff, nxt) == Roundup(KeyEnc(klen, voff, nxt) + KeyNeed(klen, voff, nxt))
-KeyActual(klen, voff, nxt, slot) ==
-    EncLen(slot \div 8) + EncLen(klen) + klen + EncLen(voff \div 8) + EncLen(nxt \div 8)
-
-\* a free slot: vu64(slot/8) 0x00 u64le(next free) zeros
-FreeActual(slot) == EncLen(slot \div 8) + 1 + 8
+(* Record layout arithmetic of abyssiniandb 0.1.4: the slot arithmetic proper lives in          *)
+(* AbyLayoutArith (no recursive operators, so that TLAPS can reason about it: proofs/), this     *)
+(* module adds the bucket count chosen from the creation parameter (htx.rs:51-126).             *)
+EXTENDS AbyLayoutArith
 
 (* bucket count from the creation parameter (htx.rs:51-68, 109-113) *)
 RECURSIVE Pow2AtLeast(_, _)
@@ -75,10 +15,4 @@ BucketsFromParam(kind, x) ==
 \* length the .htx file is set to at creation
 HtxLen(n) == HtxHdr + 8 * n + n \div 8
 
-(* properties of the arithmetic itself (checked exhaustively by MCLayout) *)
-ValFits(vlen) == LET s == ValSlot(vlen) IN
-    /\ ValActual(vlen, s) <= s /\ s % 8 = 0 /\ s >= 16 /\ LegalSize(s)
-KeyFits(klen, voff, nxt) == LET s == KeySlot(klen, voff, nxt) IN
-    /\ KeyActual(klen, voff, nxt, s) <= s /\ s % 8 = 0 /\ s >= 16 /\ LegalSize(s)
-    /\ FreeActual(s) <= s
 =============================================================================
